@@ -142,3 +142,29 @@ def fd_error_bound(f, x, d, hstep, strategy, order, delta):
     r = FD_RULES[(strategy, order)]
     sup = sup_dk(f, x, d, r["p"] + 1, r["lo"] * hstep, r["hi"] * hstep)
     return 1.5 * r["C"] * hstep ** r["p"] * sup + r["wsum"] * delta / hstep
+
+
+# ---------------------------------------------------------------------------------------------------------------
+# Fubini-Study metric of a state-valued function (C38)
+def state_jacobian(psi, x, h=1e-2):
+    """(dpsi, err): dpsi[:, i] = d psi / d x_i (complex) by 8th-order central differences at two steps."""
+    x = np.asarray(x, dtype=float)
+
+    def f(y):
+        s = np.asarray(psi(y), dtype=complex).reshape(-1)
+        return np.concatenate([s.real, s.imag])
+
+    J, err = jacobian(f, x, h)
+    d = J.shape[0] // 2
+    return J[:d] + 1j * J[d:], err
+
+
+def fubini_study(psi, x, h=1e-2):
+    """(g, err): g_ij = Re[<d_i psi|d_j psi> - <d_i psi|psi><psi|d_j psi>] at x (documented convention of qp.metric_tensor)."""
+    x = np.asarray(x, dtype=float)
+    s = np.asarray(psi(x), dtype=complex).reshape(-1)
+    dpsi, err = state_jacobian(psi, x, h)
+    A = dpsi.conj().T @ dpsi
+    b = dpsi.conj().T @ s          # <d_i psi | psi>
+    g = np.real(A - np.outer(b, b.conj()))
+    return g, err
